@@ -74,6 +74,10 @@ def gen_cases(rng, tier):
                     c["sources"].insert(rng.randrange(len(c["sources"]) + 1) if False else len(c["sources"]), {"t": "again", "of": k})
         c["i"] = i
         cases.append(c)
+    # directories with far more eligible files than the driver has file descriptors (it runs with RLIMIT_NOFILE = 96)
+    for nfiles in (130, 180):
+        ents = [{"n": (b"f%04d.sh" % j).hex(), "k": "reg", "c": (b"f%d() { :; }\n" % j).hex()} for j in range(nfiles)]
+        cases.append({"default": True, "filters": [], "addlist": False, "sources": [{"t": "dir", "entries": ents}], "i": len(cases)})
     return cases
 
 
@@ -132,7 +136,7 @@ def check(run):
         return
     cases = gen_cases(run.rng, run.tier)
     import os
-    res, err = vlib.run_drv(drv, "conv", cases, env=dict(os.environ, VERIF_TMP=run.rundir))
+    res, err = vlib.run_drv(drv, "conv", cases, env=dict(os.environ, VERIF_TMP=run.rundir, VERIF_NOFILE="96"))
     if err or res is None or len(res) != len(cases):
         run.oblige("harness ran all Converter.From cases", False, str(err))
         return
